@@ -184,6 +184,17 @@ def check_enum_equality(run, ctx, rule):
             else:
                 run.bad(rule, '%s/unrecognised-form' % short, 'PartialEq for %s calls discriminant_value but is not the derived comparison' % adt, site=body.name)
             continue
+        dcalls = [t for _, t in body.calls() if callee_name(t) == 'core::mem::discriminant']
+        if len(dcalls) == 2 and not any(body.term(i)['k'] == 'switch' for i in range(body.n)):
+            # mem::discriminant(self) == mem::discriminant(other)
+            argsd = sorted(str(strip_casts(ex.operand(t['args'][0]))) for t in dcalls)
+            eqc = [t for _, t in body.calls() if callee_name(t) == N.PARTIAL_EQ and 'Discriminant' in (t['callee'].get('self_ty') or '')]
+            rets = [ex._def(d, 0) for d in body.defs.get(0, [])]
+            if argsd == [str(('param', 1)), str(('param', 2))] and len(eqc) == 1 and len(rets) == 1 and strip_casts(rets[0])[0] == 'call' and strip_casts(rets[0])[1] == N.PARTIAL_EQ:
+                run.ok(rule, short, 'mem::discriminant(self) == mem::discriminant(other)')
+            else:
+                run.bad(rule, '%s/unrecognised-form' % short, 'PartialEq for %s uses mem::discriminant but is not the plain comparison of both' % adt, site=body.name)
+            continue
         wrong = []
         for i in range(nv):
             for j in range(nv):
